@@ -74,6 +74,33 @@ Theorem C06_sync_loop_inv :
 Proof. exact sync_loop_inv. Qed.
 Print Assumptions C06_sync_loop_inv.
 
+(* 4'. the same without `NoDup stripes`: since the repair of F-C05a a skipped stripe changes no block, PastOK
+       survives at the visited position as well (C06_sync_stripe_past), so positions may repeat *)
+Theorem C06_sync_stripe_past :
+  forall (hashf : bid -> N -> hval) (bs : N) (nlev : nat) (o : sopts) (now : N) (iob : nat) (c : content)
+         (par : parity) (fs : list (option fsdisk)) (faults : list (option rd)) (pos : nat),
+    faults_wf bs c pos faults ->
+    ParOK hashf bs c par ->
+    PastOK hashf bs c par pos ->
+    let r := sync_stripe hashf bs nlev o now iob c (map (fun lv : list penc => nth pos lv PNone) par) fs faults pos in
+    let par' := match so_write r with Some v => set_parity par pos v | None => par end in
+    PastOK hashf bs (so_content r) par' pos.
+Proof. exact sync_stripe_past. Qed.
+Print Assumptions C06_sync_stripe_past.
+
+Theorem C06_sync_loop_inv_any :
+  forall (hashf : bid -> N -> hval) (bs : N) (nlev : nat) (stripes : list nat) (o : sopts) (now : N)
+         (fs : list (option fsdisk)) (faults : nat -> list (option rd)) (stop : option nat) (c : content)
+         (par : parity) (ne ns ni : nat),
+    (forall p : nat, In p stripes -> faults_wf bs c p (faults p)) ->
+    MapOK c ->
+    ParOK hashf bs c par ->
+    (forall p : nat, In p stripes -> PastOK hashf bs c par p) ->
+    let r := sync_loop hashf bs nlev o now fs faults stripes stop c par ne ns ni in
+    MapOK (ro_content r) /\ ParOK hashf bs (ro_content r) (ro_parity r).
+Proof. exact sync_loop_inv_any. Qed.
+Print Assumptions C06_sync_loop_inv_any.
+
 (* 5. saving (DELETED entries dropped only where no file block remains) and loading with clear_past_hash *)
 Theorem C06_save_normalise_inv :
   forall (hashf : bid -> N -> hval) (bs : N) (c : content) (par : parity),
@@ -179,7 +206,9 @@ Example C06_ex_reach :
   /\ ro_parity r_run = [[PEnc [42; 0]]].
 Proof. exact reach_example. Qed.
 
-(* PastOK cannot be dropped from 3: unique-hash CHG over a parity that does not encode it, no write, recorded BLK *)
+(* why PastOK is the side condition of 3 (not a state the tool can reach: clear_past_hash resets such hashes and,
+   since the repair of F-C05a, a skipped stripe no longer creates them): unique-hash CHG over a parity that does
+   not encode it, no write, recorded BLK *)
 Example C06_ex_pastok_needed :
   ParOK w_hashf w_bs p_c [[PJunk 9]] /\
   let r := sync_stripe w_hashf w_bs 1%nat w_opts 7 0%nat p_c (map (fun lv => nth 0%nat lv PNone) [[PJunk 9]]) w_fs [] 0%nat in
